@@ -586,61 +586,60 @@ def check_valid(premises, goal, timeout_ms=10000, want_model=True, use_cvc5=True
     last_solver = None
     budgets = [min(1500, timeout_ms), timeout_ms] if timeout_ms > 3000 else [timeout_ms]
     core = [p for p in premises if p.get_id() not in AUX]
+    ver = z3.get_version_string()
+    use_core = hints and len(core) < len(premises) and not os.environ.get('PVC_NO_CORE')
     for rnd, budget in enumerate(budgets):
         ab = budget if rnd == 0 else min(budget, 30000)  # abstraction stages: a few seconds alone, more when 16 jobs compete
-        if hints and len(core) < len(premises) and not os.environ.get('PVC_NO_CORE'):
-            # stage 0: without the auxiliary unfolding facts (they feed instantiation chains the goal may not need)
-            try:
-                if _stage_ground(core, sk_goal, ab) == z3.unsat:
-                    return Result("proved", "z3-%s/core ground-instances" % z3.get_version_string(), time.time() - t0)
-                if _stage_abstract(core, sk_goal, ab, True) == z3.unsat:
-                    return Result("proved", "z3-%s/core abstract-mul+g" % z3.get_version_string(), time.time() - t0)
-            except z3.Z3Exception:
-                pass
-        if hints:
-            try:
-                if _stage_ground(premises, sk_goal, ab) == z3.unsat:
-                    return Result("proved", "z3-%s/ground-instances" % z3.get_version_string(), time.time() - t0)
-            except z3.Z3Exception:
-                pass
-            try:
-                if _stage_abstract(premises, sk_goal, ab, True) == z3.unsat:
-                    return Result("proved", "z3-%s/abstract-mul+g" % z3.get_version_string(), time.time() - t0)
-            except z3.Z3Exception:
-                pass
-        s = _tactic_solver(budget)
-        for p in premises:
-            s.add(p)
-        s.add(z3.Not(sk_goal))
-        last_solver = s
-        try:
-            r = s.check()
-        except z3.Z3Exception as exc:  # pragma: no cover
-            return Result("unknown", "z3", time.time() - t0, reason=f"z3 exception {exc}")
-        if r == z3.unsat:
-            return Result("proved", "z3-%s" % z3.get_version_string(), time.time() - t0)
-        if r == z3.sat:
-            return Result("refuted", "z3-%s" % z3.get_version_string(), time.time() - t0,
-                          model=s.model() if want_model else None)
-        reason = s.reason_unknown()
-        if hints:
-            try:
-                if _stage_abstract(premises, sk_goal, ab, False) == z3.unsat:
-                    return Result("proved", "z3-%s/abstract-mul" % z3.get_version_string(), time.time() - t0)
-            except z3.Z3Exception:
-                pass
-            s2 = _tactic_solver(ab)
+
+        def st_ground(prem, tag):
+            return ("proved", f"z3-{ver}/{tag}ground-instances", None) if _stage_ground(prem, sk_goal, ab) == z3.unsat else None
+
+        def st_abs(prem, tag, g=True):
+            name = "abstract-mul+g" if g else "abstract-mul"
+            return ("proved", f"z3-{ver}/{tag}{name}", None) if _stage_abstract(prem, sk_goal, ab, g) == z3.unsat else None
+
+        def st_native(extra, tag):
+            nonlocal last_solver, reason
+            sv = _tactic_solver(budget if not extra else ab)
             for p in premises:
-                s2.add(p)
-            for h in nl_hints(list(premises) + [sk_goal]):
-                s2.add(h)
-            s2.add(z3.Not(sk_goal))
-            r = s2.check()
+                sv.add(p)
+            for h in extra:
+                sv.add(h)
+            sv.add(z3.Not(sk_goal))
+            if not extra:
+                last_solver = sv
+            r = sv.check()
             if r == z3.unsat:
-                return Result("proved", "z3-%s/nl-hints" % z3.get_version_string(), time.time() - t0)
+                return ("proved", f"z3-{ver}{tag}", None)
             if r == z3.sat:
-                return Result("refuted", "z3-%s/nl-hints" % z3.get_version_string(), time.time() - t0,
-                              model=s2.model() if want_model else None)
+                return ("refuted", f"z3-{ver}{tag}", sv.model() if want_model else None)
+            if not extra:
+                reason = sv.reason_unknown()
+            return None
+
+        cheap_first = []
+        if use_core:
+            cheap_first += [lambda: st_ground(core, "core "), lambda: st_abs(core, "core ")]
+        if hints:
+            cheap_first += [lambda: st_ground(premises, ""), lambda: st_abs(premises, "")]
+        if rnd == 0:
+            order = cheap_first + [lambda: st_native([], "")]
+        else:
+            # full budgets: the stage that proves nine obligations in ten (products abstracted) goes first, the
+            # quantifier-free instance stage - three solver calls of its own - after the native attempt
+            order = [f for k, f in enumerate(cheap_first) if k % 2 == 1] + [lambda: st_native([], "")] + \
+                    [f for k, f in enumerate(cheap_first) if k % 2 == 0]
+        if hints:
+            order += [lambda: st_abs(premises, "", False), lambda: st_native(nl_hints(list(premises) + [sk_goal]), "/nl-hints")]
+        for stage in order:
+            try:
+                res = stage()
+            except z3.Z3Exception as exc:
+                res = None
+                reason = reason or f"z3 exception {exc}"
+            if res is not None:
+                status, solver, model = res
+                return Result(status, solver, time.time() - t0, model=model)
     if use_cvc5 and last_solver is not None:
         r2 = _cvc5_cli(last_solver, timeout_ms)
         if r2 is not None:
